@@ -70,6 +70,13 @@ def set_params(tier):
         for toggle in (False, True):
             for cov in (("base",), ("base", "fan"), ("fan",), ("base", "swing")):
                 ps.append(dict(remote_id=rid, toggle=toggle, modes=ALL_MODES, tmin=16, tmax=30, coverage=cov, on_coverage=cov if toggle else (), distractors=True))
+    # the same entries listed in another order (descending temperatures, starting in the middle)
+    for rid in ids[:2]:
+        for toggle in (False, True):
+            for order in ("desc", "rot"):
+                for (tmin, tmax) in ((16, 30), (24, 24), (20, 21)):
+                    for cov in (("base", "fan", "swing"), ("base",)):
+                        ps.append(dict(remote_id=rid, toggle=toggle, modes=ALL_MODES, tmin=tmin, tmax=tmax, coverage=cov, on_coverage=cov if toggle else (), order=order))
     # sets without an 'off' entry / with fewer fan levels
     ps.append(dict(remote_id="ELEC7001", toggle=False, modes=ALL_MODES, tmin=16, tmax=30, coverage=("base", "fan", "swing"), on_coverage=(), with_off=False))
     ps.append(dict(remote_id="ELEC7001", toggle=False, modes=ALL_MODES, tmin=16, tmax=30, coverage=("fan", "swing"), on_coverage=(), fans=("auto", "high")))
